@@ -210,8 +210,9 @@ def ev_play(tid, ob: Obj, seat: int, c: int, via: str = 'by_player',
     return e
 
 
-def ev_setdummy(tid, ob: Obj, hand: Sequence[int]) -> Dict[str, Any]:
-    ob.obj.set_dummy_hand({card(c) for c in hand})
+def ev_setdummy(tid, ob: Obj, hand: Sequence[int], same_object: bool = False) -> Dict[str, Any]:
+    cur = ob.obj.dummy_hand if same_object else None
+    ob.obj.set_dummy_hand(cur if cur is not None else {card(c) for c in hand})
     e = {'tid': tid, 'ev': 'setdummy', 'o': ob.o, 'hand': sorted(hand),
          'res': 'ok'}
     e.update(ob.proj())
@@ -474,6 +475,10 @@ def _board_trace(job) -> List[Dict[str, Any]]:
                 # client skips the message for this seat)
                 if o.me != dummy or hsum % 3 == 1:
                     evs.append(ev_setdummy(tid, o, sorted(hands[dummy])))
+                    if hsum % 4 == 1:
+                        # dummy is announced a second time, with the very set the object
+                        # already holds (a repeated "Dummy's cards"): nothing changes
+                        evs.append(ev_setdummy(tid, o, sorted(hands[dummy]), same_object=True))
         if obs:
             evs.append({'tid': tid, 'ev': 'agree', 'o': 0})
         k += 1
